@@ -160,6 +160,20 @@ func c18Rid(r page.RID, keys []types.Value) *c18Fail {
 			return &c18Fail{"rid-6bytes", fmt.Sprintf("6-byte form of %v decodes to %v", r, got)}
 		}
 	}
+	// two different row ids under one key give two different entries (an index that sees equal bytes keeps
+	// one of them): the neighbours of r in every byte lane of page id and slot
+	for _, d := range []uint32{1, 1 << 8, 1 << 16, 1 << 24} {
+		for _, r2 := range []page.RID{{PageID: r.PageID ^ types.PageID(d), SlotNum: r.SlotNum}, {PageID: r.PageID, SlotNum: r.SlotNum ^ d}} {
+			if r2.PageID < 0 {
+				continue
+			}
+			for _, k := range keys {
+				if encV(k, &r) == encV(k, &r2) {
+					return &c18Fail{"rid-distinct", fmt.Sprintf("key %v: the entries for row ids %v and %v have the same bytes", k.ToIFValue(), r, r2)}
+				}
+			}
+		}
+	}
 	for _, k := range keys {
 		lo, mid, hi := encV(k, &ridMin), encV(k, &r), encV(k, &ridMax)
 		if !(lo <= mid && mid <= hi) {
@@ -518,6 +532,22 @@ func c18ThroughIndex(kind string) *c18Fail {
 		got := in.idx.ScanKey(in.tup(int32(i)), nil)
 		if len(got) != 1 || got[0] != r {
 			return &c18Fail{"rid-through-index/" + kind + "/lookup", fmt.Sprintf("row id %v stored under key %d in a %s index comes back from ScanKey as %v", r, i, kind, got)}
+		}
+	}
+	// ... and all of them under ONE key: none may replace another
+	one := newC17(c17Params{Kind: kind, KeyT: "int", Seed: "empty", Levels: "all1"})
+	defer one.Close()
+	for _, r := range rids {
+		one.idx.InsertEntry(one.tup(int32(5)), r, nil)
+	}
+	got := one.idx.ScanKey(one.tup(int32(5)), nil)
+	seen := map[page.RID]int{}
+	for _, g := range got {
+		seen[g]++
+	}
+	for _, r := range rids {
+		if seen[r] != 1 {
+			return &c18Fail{"rid-through-index/" + kind + "/same-key", fmt.Sprintf("%d row ids stored under one key in a %s index: ScanKey returns %d entries, row id %v %d times", len(rids), kind, len(got), r, seen[r])}
 		}
 	}
 	if kind == "hash" {
